@@ -92,6 +92,16 @@ def _run_graphs(args):
 def judge_covers(ctx, recs):
     verdicts = []
     B = 5000
+    # binding demonstration: a copy of a recorded call with one cover vertex of an edge dropped must be judged invalid
+    import copy
+    donor = next((r_ for r_ in recs if r_["edges"]), None)
+    if donor is not None:
+        bad = copy.deepcopy(donor)
+        bad["id"] = "corrupted-copy"
+        u, v = bad["edges"][0]
+        bad["cu"] = [x for x in bad["cu"] if x != u]
+        bad["cv"] = [x for x in bad["cv"] if x != v]
+        recs = list(recs) + [bad]
     for k in range(0, len(recs), B):
         batch = recs[k:k + B]
         with tempfile.NamedTemporaryFile("w", suffix=".json", delete=False) as fh:
@@ -106,6 +116,12 @@ def judge_covers(ctx, recs):
         if len(r["verdicts"]) != len(batch):
             raise MachineryError("verdict count mismatch in BipartiteTrace")
         verdicts.extend(r["verdicts"])
+    if donor is not None:
+        cv = [v for v in verdicts if v["id"] == "corrupted-copy"]
+        if len(cv) != 1 or cv[0]["valid"]:
+            raise MachineryError("binding demonstration failed: BipartiteTrace accepted a cover that leaves an edge uncovered")
+        verdicts = [v for v in verdicts if v["id"] != "corrupted-copy"]
+        ctx.notes["binding_demonstration"] = "corrupted copy (an edge left uncovered) rejected by BipartiteTrace"
     return verdicts
 
 
